@@ -5,6 +5,7 @@ import HcModel.Drv.Util
     charhttp get <aid.iid.r|w> … | <tok> …      tok := <aid>.<iid> | bad
   Database entries in container order (r = readable, w = not readable). Answer:
     500 | 200 <aid.iid=V> … | 207 <aid.iid=V/0 | aid.iid=<status>> …      (V = "carries the stored value")
+    charhttp put <aid.iid.perms> … | <aid.iid.<v|n><t|f|n>> …   (F75)  →  204 | 207 <aid.iid=status> … | panic
 -/
 namespace Hc.Drv.CharHttp
 open Hc.CharHttp Hc.Charac Hc.Drv
@@ -25,6 +26,27 @@ def pTok (s : String) : Option IdTok :=
   | [a, i] => do pure (.pair (← a.toNat?) (← i.toNat?))
   | _ => none
 
+/-- `<aid>.<iid>.<perms>`: perms a subset of "rwe" (pr, pw, ev), "-" for none -/
+def pEntryP (s : String) : Option Entry :=
+  match s.splitOn "." with
+  | [a, i, f] => do
+    let c : Chr := { cfg := { format := .bool, perms := ⟨f.contains 'r', f.contains 'w', f.contains 'e', false, false⟩, min := .nil,
+                              max := .nil, updateOnSameValue := false, tcb := none },
+                     value := .bool false, log := [] }
+    pure ⟨← a.toNat?, ← i.toNat?, c, false⟩
+  | _ => none
+
+/-- `<aid>.<iid>.<v|n><t|f|n>`: a value (true) or none; ev true / false / absent -/
+def pPut (s : String) : Option PutReq :=
+  match s.splitOn "." with
+  | [a, i, f] =>
+    match f.toList with
+    | [v, e] => do
+      let ev : JVal := if e == 't' then .bool true else if e == 'f' then .bool false else .null
+      pure ⟨← a.toNat?, ← i.toNat?, if v == 'v' then .bool true else .null, ev⟩
+    | _ => none
+  | _ => none
+
 def showEntry (e : RespEntry) : String :=
   let v := if e.value.isNil then "" else "V"
   let st := match e.status with | some s => (if v == "" then "" else "/") ++ toString s | none => ""
@@ -39,6 +61,15 @@ def handle : List String → String
       | .http500 => "500"
       | .ok200 es => "200 " ++ " ".intercalate (es.map showEntry)
       | .multi207 es => "207 " ++ " ".intercalate (es.map showEntry)
+    | _, _ => "bad-op"
+  | "put" :: rest =>
+    let (dbs, toks) := rest.span (· != "|")
+    match optAll (dbs.map pEntryP), optAll ((toks.drop 1).map pPut) with
+    | some db, some rs =>
+      match (putChars db rs).2 with
+      | .panicked => "panic"
+      | .noContent204 => "204"
+      | .body es => "207 " ++ " ".intercalate (es.map fun e => s!"{e.aid}.{e.iid}={e.status.getD 0}")
     | _, _ => "bad-op"
   | _ => "bad-op"
 
